@@ -149,7 +149,15 @@ fn toml_of(d: &Desc) -> String {
 
 const A_HTTP: &str = "127.0.0.1:8080";
 const A_HTTPS: &str = "[::1]:8443";
+const A_HTTPS2: &str = "[::1]:8444";
 const A_TCP: &str = "127.0.0.1:9000";
+const CERT2: &str = "/repo/lib/assets/cert_test.pem";
+const KEY2: &str = "/repo/lib/assets/key_test.pem";
+
+/// `certificate` / `key` lines of a listener table
+fn listener_cert(cert: &str, key: &str) -> Vec<String> {
+    vec![format!("certificate = \"{cert}\""), format!("key = \"{key}\"")]
+}
 const A_UDP: &str = "[::1]:5353";
 
 fn front(addr: &str, host: &str, path: Option<&str>, cert: bool) -> Front {
@@ -273,6 +281,18 @@ fn base() -> Desc {
 
 fn family_options() -> Vec<Desc> {
     let mut v = vec![base()];
+    // two HTTPS listeners, each with a certificate of its own, frontends without one: each inherits its listener's
+    for first_has_cert_only in [false, true] {
+        let mut d = base();
+        d.label = format!("two-https-listeners{}", if first_has_cert_only { "-second-front-brings-its-own" } else { "" });
+        d.listeners[1].extra.extend(listener_cert(CERT, KEY));
+        d.listeners.push(Listener { proto: "https", addr: A_HTTPS2.into(), extra: if first_has_cert_only { vec![] } else { listener_cert(CERT2, KEY2) } });
+        d.clusters[0].fronts[1].cert = false;
+        let mut f = front(A_HTTPS2, "b.example.com", None, first_has_cert_only);
+        f.path = None;
+        d.clusters[0].fronts.push(f);
+        v.push(d);
+    }
     let top_opts = [
         "activate_listeners = false",
         "front_timeout = 11",
@@ -419,6 +439,11 @@ fn family_neighbours() -> Vec<Desc> {
         d.listeners[0].extra.push("expect_proxy = true".into());
     });
     add("https-frontend-without-certificate", "https frontend without any certificate", &|d| d.clusters[0].fronts[1].cert = false);
+    add("https-frontend-without-certificate-beside-a-listener-that-has-one", "https frontend without any certificate", &|d| {
+        // another HTTPS listener, declared first, has a certificate of its own: it is not this frontend's
+        d.listeners.insert(0, Listener { proto: "https", addr: A_HTTPS2.into(), extra: listener_cert(CERT, KEY) });
+        d.clusters[0].fronts[1].cert = false;
+    });
     add("certificate-on-http-listener", "certificate on a plain http listener", &|d| d.clusters[0].fronts[0].cert = true);
     add("tcp-cluster-on-http-listener", "tcp frontend on an http listener", &|d| {
         d.clusters.push(Cluster { name: "t".into(), proto: "tcp", extra: vec![], fronts: vec![Front { addr: A_HTTP.into(), ..Default::default() }], backends: vec![] })
@@ -612,6 +637,36 @@ fn run_desc(d: &Desc) -> Outcome {
     for a in &want_certs {
         if !fl.keys().any(|k| k.starts_with(&format!("cert/{a}/"))) {
             bad.push(("certificate-missing".to_owned(), format!("no certificate loaded for {a}")));
+        }
+    }
+    // a frontend without a certificate of its own gets its own listener's, never another listener's
+    let fp_of = |path: &str| std::fs::read_to_string(path).ok().map(|pem| crate::cfgspace::fp(&pem));
+    let listener_fp: BTreeMap<String, String> = d
+        .listeners
+        .iter()
+        .filter_map(|l| {
+            let path = l.extra.iter().find_map(|e| e.strip_prefix("certificate = \""))?.trim_end_matches('"').to_owned();
+            Some((norm_addr(&l.addr), fp_of(&path)?))
+        })
+        .collect();
+    for l in d.listeners.iter().filter(|l| l.proto == "https") {
+        let a = norm_addr(&l.addr);
+        let own = listener_fp.get(&a);
+        let fronts_here: Vec<&Front> = d.clusters.iter().flat_map(|c| c.fronts.iter()).filter(|f| norm_addr(&f.addr) == a).collect();
+        let loaded: Vec<String> = fl.keys().filter_map(|k| k.strip_prefix(&format!("cert/{a}/"))).map(|s| s.to_owned()).collect();
+        if fronts_here.iter().any(|f| !f.cert) {
+            match own {
+                Some(fp) if !loaded.iter().any(|l| l.eq_ignore_ascii_case(fp)) => bad.push(("listener-certificate-not-inherited".to_owned(), format!("a frontend on {a} has no certificate of its own; its listener's ({fp}) is not loaded there (loaded: {loaded:?})"))),
+                _ => {}
+            }
+        }
+        for fp in &loaded {
+            let is_own = own.is_some_and(|o| o.eq_ignore_ascii_case(fp));
+            let from_front = fronts_here.iter().any(|f| f.cert) && fp_of(CERT).is_some_and(|c| c.eq_ignore_ascii_case(fp));
+            let elsewhere = listener_fp.iter().any(|(other, ofp)| *other != a && ofp.eq_ignore_ascii_case(fp));
+            if !is_own && !from_front && elsewhere {
+                bad.push(("certificate-of-another-listener".to_owned(), format!("{a} serves certificate {fp}, which the file gives to another listener only")));
+            }
         }
     }
     // ---- loading the same file again changes nothing
